@@ -89,5 +89,5 @@ let init () =
   register "asf_build" (fun [tree; data] -> "ok " ^ hex_of_bytes (asf_build (tree_of tree) (bytes_of_hex data)));
   register "asf_place" (fun [tags] ->
     let p = place (attrs_of tags) in
-    "ok " ^ string_of_attrs p.p_cd ^ " " ^ string_of_attrs p.p_ecd ^ " " ^ string_of_attrs p.p_m ^ " " ^ string_of_attrs p.p_ml);
+    "ok " ^ string_of_attrs (cd_sorted p) ^ " " ^ string_of_attrs p.p_ecd ^ " " ^ string_of_attrs p.p_m ^ " " ^ string_of_attrs p.p_ml);
   register "asf_reload_attrs" (fun [tags] -> "ok " ^ string_of_attrs (reload_attrs (place (attrs_of tags))))
